@@ -329,3 +329,23 @@ def run(repo: Repo, rep: Report, tier: str) -> None:
     # ---------------- R13 --------------------------------------------------------------
     _borrow15(repo, rep, "C12", "C12-R7", "C15-R13", "`e = make()` binds e to the entity the call returned, at top level and inside function or loop bodies alike: the returned-entity channel is "
               "reset before the call, read after it, and its content is bound without consulting the analyzer's (top-level only) symbol table", floor=4)
+
+    # ---------------- R14 --------------------------------------------------------------
+    rep.rule("C15-R14", "a memory declared in a function body does not change what the caller's memory of the same name is: the analyzer's memory table (name -> declared type), which the "
+             "lowerer reads when it creates the cell, is keyed per scope or restored when the scope is left — a flat name-keyed table keeps the last declaration for every "
+             "cell of that name")
+    an14 = repo.cls("SemanticAnalyzer")
+    stores14 = [(m, n) for m in an14.methods.values() for n in walk_local(m.node) if isinstance(n, ast.Assign) and isinstance(n.targets[0], ast.Subscript)
+                and norm(n.targets[0].value) == "self.memory_types"]
+    if not stores14:
+        raise AnalysisError("C15-R14: the analyzer's memory table is never written")
+    restores14 = [(m, n) for m in an14.methods.values() for n in walk_local(m.node)
+                  if (isinstance(n, ast.Assign) and norm(n.targets[0]) == "self.memory_types" and m.name != "__init__")
+                  or (isinstance(n, ast.Call) and call_name(n) in ("pop", "clear") and isinstance(n.func, ast.Attribute) and norm(n.func.value) == "self.memory_types")
+                  or (isinstance(n, ast.Delete) and any("self.memory_types[" in norm(t) for t in n.targets))]
+    scoped_key = all(not isinstance(n.targets[0].slice, ast.Attribute) or "scope" in norm(n.targets[0].slice) for _, n in stores14) and any("scope" in norm(n.targets[0].slice) for _, n in stores14)
+    ok14 = bool(restores14) or scoped_key
+    m14, n14 = stores14[0]
+    rep.check(ok14, "C15-R14", "SemanticAnalyzer.memory_types distinguishes a callee's memory from the caller's memory of the same name",
+              "restored on scope exit / keyed by scope" if ok14 else
+              f"`{norm(n14)[:60]}` is keyed by the bare name and never restored: after `func f() {{ Memory c: \"signal-B\"; ... }}` the caller's `Memory c: \"signal-A\"` is created on signal-B", m14.loc(n14))
